@@ -27,6 +27,7 @@
 #include <xercesc/dom/impl/DOMDocumentImpl.hpp>
 #include <xercesc/util/OutOfMemoryException.hpp>
 #include <xercesc/util/XMLUni.hpp>
+#include <xercesc/util/XMLMsgLoader.hpp>
 
 extern "C" int __lsan_do_recoverable_leak_check();
 
@@ -320,6 +321,23 @@ static std::string runParserScenario(const Scen& s, Trace& tr, RecMM& m1, RecMM&
             if (s.mode == "adopt-before") { tr.mark("delete-parser"); delete p; p = 0; tr.mark("release-doc"); if (d) d->release(); }
             else { tr.mark("release-doc"); if (d) d->release(); }
         }
+        else if (s.mode.rfind("seq-", 0) == 0) {
+            // seq-<mask>-<r|n>-<b|a>: three parses on one parser; bit i of mask = the application adopts document i;
+            // r = resetDocumentPool() between parses; b/a = parser destroyed before/after the adopted documents are released
+            std::vector<std::string> q = hx::split(s.mode, '-');
+            if (q.size() != 4) status = "bad-mode";
+            else {
+                int mask = atoi(q[1].c_str()); std::vector<DOMDocument*> mine;
+                for (int i = 0; i < 3; i++) {
+                    tr.mark("parse" + std::to_string(i)); c.reset(0);
+                    status += (i ? "+" : "") + guarded(once);
+                    if (mask & (1 << i)) { DOMDocument* d = p->adoptDocument(); if (d) mine.push_back(d); }
+                    if (q[2] == "r" && i < 2) { tr.mark("reset-pool"); p->resetDocumentPool(); }
+                }
+                if (q[3] == "b") { tr.mark("delete-parser"); delete p; p = 0; }
+                tr.mark("release-docs"); for (DOMDocument* d : mine) d->release();
+            }
+        }
         else if (s.mode.rfind("prog-", 0) == 0) progressive(p);
         else status = "bad-mode";
         if (p) { tr.mark("delete-parser"); delete p; }
@@ -345,6 +363,24 @@ static std::string runParserScenario(const Scen& s, Trace& tr, RecMM& m1, RecMM&
             DOMDocument* d = last;
             if (s.mode == "adopt-before") { tr.mark("delete-parser"); p->release(); p = 0; tr.mark("release-doc"); if (d) d->release(); }
             else { tr.mark("release-doc"); if (d) d->release(); }
+        }
+        else if (s.mode.rfind("seq-", 0) == 0) {
+            // as above; adoption = the user-adopts-DOMDocument parameter switched on for that parse only
+            std::vector<std::string> q = hx::split(s.mode, '-');
+            if (q.size() != 4) status = "bad-mode";
+            else {
+                int mask = atoi(q[1].c_str()); std::vector<DOMDocument*> mine;
+                for (int i = 0; i < 3; i++) {
+                    tr.mark("parse" + std::to_string(i)); c.reset(0);
+                    bool adopt = (mask & (1 << i)) != 0;
+                    p->getDomConfig()->setParameter(XMLUni::fgXercesUserAdoptsDOMDocument, adopt);
+                    status += (i ? "+" : "") + guarded(once);
+                    if (adopt && last) mine.push_back(last);
+                    if (q[2] == "r" && i < 2) { tr.mark("reset-pool"); p->resetDocumentPool(); }
+                }
+                if (q[3] == "b") { tr.mark("delete-parser"); p->release(); p = 0; }
+                tr.mark("release-docs"); for (DOMDocument* d : mine) d->release();
+            }
         }
         else status = "bad-mode";
         if (p) { tr.mark("delete-parser"); p->release(); }
@@ -401,7 +437,7 @@ static std::string doL(const std::vector<std::string>& f) {
         for (auto& u : users) if (!destroyed[u.first] && u.second == m) return "u" + std::to_string(u.first);
         return "d";
     };
-    std::string obs;
+    std::string obs, nobs;
     size_t first = 1;
     if (f.size() > 1 && f[1].rfind("D:", 0) == 0) {
         // start from the given DOM heap sizes (the process defaults): they are statics that an earlier case may have changed
@@ -415,11 +451,17 @@ static std::string doL(const std::vector<std::string>& f) {
         const std::string& op = f[i];
         tr.mark(std::to_string(i) + op);
         std::string r = guarded([&] {
-            if (op[0] == 'I') XMLPlatformUtils::Initialize(XMLUni::fgXercescDefaultLocale, 0, 0, user(op.substr(2)));
+            // I:<mgr>[:<locale>[:<nlsHome>]]   H:<i>.<m>.<s>:<mgr>[:<locale>[:<nlsHome>]]    "-" = argument left at its default
+            std::vector<std::string> p = hx::split(op, ':');
+            size_t a = op[0] == 'H' ? 2 : 1;
+            std::string mg = p.size() > a ? p[a] : "-", loc = p.size() > a + 1 ? p[a + 1] : "-", nls = p.size() > a + 2 ? p[a + 2] : "-";
+            const char* locArg = loc == "-" ? XMLUni::fgXercescDefaultLocale : loc.c_str();
+            const char* nlsArg = nls == "-" ? 0 : nls.c_str();
+            if (op[0] == 'I') XMLPlatformUtils::Initialize(locArg, nlsArg, 0, user(mg));
             else if (op[0] == 'H') {
-                std::vector<std::string> p = hx::split(op, ':'); std::vector<std::string> n = hx::split(p[1], '.');
+                std::vector<std::string> n = hx::split(p[1], '.');
                 XMLPlatformUtils::Initialize((XMLSize_t)strtoull(n[0].c_str(), 0, 10), (XMLSize_t)strtoull(n[1].c_str(), 0, 10),
-                                             (XMLSize_t)strtoull(n[2].c_str(), 0, 10), XMLUni::fgXercescDefaultLocale, 0, 0, user(p[2]));
+                                             (XMLSize_t)strtoull(n[2].c_str(), 0, 10), locArg, nlsArg, 0, user(mg));
             }
             else if (op[0] == 'T') XMLPlatformUtils::Terminate();
             else if (op[0] == 'W') {
@@ -440,6 +482,8 @@ static std::string doL(const std::vector<std::string>& f) {
         });
         if (r != "done") obs += r + " ";
         obs += "m=" + who() + " ";
+        { const char* l = XMLMsgLoader::getLocale(); const char* n = XMLMsgLoader::getNLSHome();
+          nobs += std::string(l ? l : "0") + "," + (n ? n : "0") + ";"; }
     }
     // leave the library down whatever the sequence was (bounded: depth never exceeds the line length)
     tr.mark("cleanup");
@@ -450,7 +494,7 @@ static std::string doL(const std::vector<std::string>& f) {
     for (auto& d : destroyed) if (d.second) { obs += "u" + std::to_string(d.first) + ","; any = true; }
     if (!any) obs += "-";
     for (auto& u : users) if (!destroyed[u.first]) delete u.second;
-    return obs + " | " + tr.out;
+    return obs + " N=" + nobs + " | " + tr.out;
 }
 
 // ------------------------------------------------------------------------------------------------ DOM document arena
